@@ -138,6 +138,7 @@ pub fn builder_text(bb: &BoardBuilder) -> String {
 }
 
 pub struct Cfg {
+    pub starts_only: bool,
     pub obs: BTreeSet<String>,
     pub plies: u64,
     pub heavy_every: u64,
@@ -158,7 +159,10 @@ impl<'a> Driver<'a> {
     }
 
     pub fn pick_root(&mut self) -> Option<(String, String, Board)> {
-        let r = self.rng.below(100);
+        let mut r = self.rng.below(100);
+        if self.cfg.starts_only {
+            r = 37 + r % 23;
+        }
         if r < 22 && !self.roots.corpus.is_empty() {
             let t = self.rng.pick(&self.roots.corpus).clone();
             let b = guard(|| Board::from_fen(&t, true)).and_then(|r| r.ok())?;
@@ -884,7 +888,7 @@ pub fn run(args: &Args) {
     let roots = Roots::load();
     let mut sh = Shards::new(out, shards);
     {
-        let cfg = Cfg { obs: args.list("obs").into_iter().collect(), plies: args.num("plies", 24), heavy_every: args.num("heavy-every", 1) };
+        let cfg = Cfg { starts_only: args.get("root-mix") == Some("starts"), obs: args.list("obs").into_iter().collect(), plies: args.num("plies", 24), heavy_every: args.num("heavy-every", 1) };
         let mut d = Driver { out: &mut sh, rng: Rng::new(seed), cfg, roots: &roots, all_moves: all_move_values(), states: 0 };
         // subtrees below curated roots: every (position, move) pair near the roots
         let sub = args.num("subtrees", 0);
